@@ -41,8 +41,16 @@ def run(chk):
     ndis = 0
     # ---- generated programs x 4 combos x budgets
     n = 700 if quick else 7000
-    budgets = [2, 3, 10]
+    budgets = [1, 2, 3, 10]
+    known = {f['class'] for f in vlib.known_findings() if f['status'] == 'known'}
     progs = [asm_gen.gen_shift_prog(rng) if rng.chance(0.15) else asm_gen.gen_prog(rng, size_static=rng.chance(0.3), collide=rng.chance(0.4), boundary=rng.chance(0.2)) for _ in range(n)]
+    # label-free, statically known programs (the F70 situation at budget 1)
+    for _ in range(20 if quick else 200):
+        q = asm_gen.Prog(asm_gen.Isa())
+        q.isa.rules.append(dict(m='nop', ops=[], prod='0x%02x' % rng.below(256)))
+        for _j in range(rng.range(1, 4)):
+            q.items.append(('data', rng.choice([8, 16]), [str(rng.below(200))]) if rng.chance(0.6) else ('instr', 0, []))
+        progs.append(q)
     icases = []
     for p in progs:
         t = p.text()
@@ -63,6 +71,14 @@ def run(chk):
                 chk.violation("implementation crashed or was inconsistent under some switch combination", rep)
                 break
             if any(asm_streams.sig(r) != asm_streams.sig(res[0]) for r in res):
+                # F70: at budget 1 a statically known program converges one pass earlier with the static optimisation
+                st_on = [asm_streams.sig(r) for r, c in zip(res, COMBOS) if c[0]]
+                st_off = [r[0] for r, c in zip(res, COMBOS) if not c[0]]
+                nxt = [asm_gen.canon_impl(x) for x in ia[pi * per + (bi + 1) * 4: pi * per + (bi + 1) * 4 + 4]] if bi + 1 < len(budgets) else []
+                if (b == 1 and "static_opt_one_pass_budget1" in known and st_on[0] == st_on[1] and st_on[0][0] == "OK"
+                        and all(x == "ERR" for x in st_off) and nxt and all(asm_streams.sig(x) == st_on[0] for x in nxt)):
+                    chk.known("F70", "class=static_opt_one_pass_budget1: at budget 1 a statically known program assembles only with the static optimisation (same result one pass later without)")
+                    continue
                 chk.violation("the optimisation switches change the result (budget %d)" % b, rep)
                 break
             dist["ok" if res[0][0] == "OK" else "err"] += 1
